@@ -373,7 +373,8 @@ def h18b2(s1: int, s2: int, s3: int) -> bool:
 
 
 def h18b2_pre(s1, s2, s3):
-    return all([0 <= s <= 47 for s in (s1, s2, s3)])
+    lo, hi = S("s1")
+    return all([0 <= s <= 47 for s in (s1, s2, s3)]) and lo <= s1 <= hi
 
 
 # ---------------------------------------------------------------- H18c source matching
@@ -424,7 +425,7 @@ HARNESSES = [
             encodes=["dns.query.receive_tcp", "dns.query._net_read"],
             bound="the first 4 recv calls deliver 1-3 octets or would-block (symbolic), later calls deliver all; EOF at any position of the stream; deadline expiring at wait 0..4",
             stubs=["E11"], outside="> 4 scripted events; TLS want-read / want-write"),
-    Harness("H18b2", h18b2, h18b2_pre, lambda tier: [{"_timeout": 900, "_path_timeout": 120}], kind="universal over partial-send sizes",
+    Harness("H18b2", h18b2, h18b2_pre, lambda tier: [{"s1": r, "_timeout": 900, "_path_timeout": 120} for r in ((0, 5), (6, 11), (12, 19), (20, 29), (30, 47))], kind="universal over partial-send sizes",
             encodes=["dns.query.send_tcp", "dns.query._net_write"], bound="first 3 send calls accept a symbolic 0..47 octets (0 = would block)", stubs=["E11"], outside=""),
     Harness("H18c", h18c, h18c_pre, lambda tier: [{"v6": v, "di": di, "_timeout": 900, "_path_timeout": 120} for v in (False, True) for di in range(4) if v or di != 3], kind="universal over ports, finite over addresses",
             encodes=["dns.query._matches_destination", "dns.query._addresses_equal", "dns.inet.is_multicast"],
